@@ -74,8 +74,8 @@ CONSTANTS
   MaxArity = {arity}
   MaxOps = {ops}
   EMIT = TRUE
-CONSTRAINT DepthBound
-INVARIANTS AllLaws Bounded
+CONSTRAINTS DepthBound {constraint}
+INVARIANTS AllLaws {inv}
 CHECK_DEADLOCK FALSE
 """
 
@@ -100,7 +100,7 @@ def erralg_stage(run, selftest, which="C04"):
     q = run.tier == "quick"
     # 1. exhaustive design check + one REPLAY line per transition
     cfg = EA_CFG.format(kinds='{"dup", "custom"}', names='{"x."}', locs='{"a", "b"}', spans="{1, 2}",
-                        pool=3, leaves=3, maxloc=1, arity=3, ops=7 if q else 9)
+                        pool=3, leaves=3, maxloc=1, arity=3, ops=7 if q else 9, constraint="", inv="Bounded")
     res = run.tlc("MC_ErrorAlgebra", cfg, "ea_exh", workers=4 if q else 8)
     run.require_tlc_ok(res, "ErrorAlgebra (exhaustive)")
     r = run.vh("replay", "erralg", res["out"])
@@ -117,7 +117,8 @@ def erralg_stage(run, selftest, which="C04"):
     # 2. beyond the exhaustive bounds: random walks of the same spec, wider alphabet, all ten kinds
     cfg = EA_CFG.format(kinds='{"custom", "dup", "missing", "unknown", "shape", "shapeexp", "format", "type", "value"}',
                         names='{"x", "y."}', locs='{"a", "b", "c"}', spans="{1, 2, 3}",
-                        pool=5, leaves=8, maxloc=3, arity=4, ops=40)
+                        pool=5, leaves=8, maxloc=3, arity=4, ops=40, constraint="Bounded", inv="")
+    # (random walks can lengthen a leaf's path without limit by bundling, locating and flattening in turn: the walk ends there)
     res = run.tlc("MC_ErrorAlgebra", cfg, "ea_sim", workers=1, simulate=12 if q else 150, depth=30)
     run.exhaustive = False if not q else run.exhaustive
     run.require_tlc_ok(res, "ErrorAlgebra (simulate)")
@@ -557,7 +558,8 @@ def c07(run, selftest=True):
     frags = run.path("fragments.ndjson")
     run.vh("fragments", frags)
     for module, spec_name, cfg, env in (("syntargets", "SynTargets", simple_cfg("C13_Matrix EmitDone"), {"FRAGMENTS": frags}),
-                                       ("scalars", "Scalars", simple_cfg("C11_Exact EmitDone"), None)):
+                                       ("scalars", "Scalars", simple_cfg("C11_Exact EmitDone"), None),
+                                       ("scalarforms", "ScalarForms", simple_cfg("C11_Forms EmitDone"), None)):
         res = run.tlc(spec_name, cfg, "c07_" + module, workers=4, env=env)
         run.require_tlc_ok(res, spec_name)
         r = run.vh("replay", module, res["out"], timeout=3000)
@@ -1043,6 +1045,8 @@ DO_FOCUS = {
     "cont": dict(derives="ContDerives", shapes="ContShapes", citems="ContainerAlpha", fitems="FieldAlphaSmall", vitems="VariantAlpha", mc=2, mf1=1, mf2=0, mv1=1, mv2=0),
     # every variant option, pairs on the first variant and one on the second, with and without container from_word
     "enum": dict(derives="EnumDerives", shapes="EnumShapes", citems="ContainerSmall", fitems="FieldAlphaSmall", vitems="VariantAlpha", mc=1, mf1=0, mf2=0, mv1=2, mv2=2),
+    # options on the field of a struct variant (live, skipped, `skip = false`): all singles and ordered pairs
+    "vfield": dict(derives="EnumDerives", shapes="EnumShapes", citems="ContainerSmall", fitems="FieldAlpha", vitems="VFieldVariant", mc=0, mf1=2, mf2=0, mv1=1, mv2=0),
     # every field option in every form: all singles, ordered pairs and ordered triples on one field, one more on a second field
     "field": dict(derives="FieldDerives", shapes="FieldShapes", citems="ContainerSmall", fitems="FieldAlpha", vitems="VariantAlpha", mc=0, mf1=3, mf2=1, mv1=0, mv2=0),
 }
@@ -1145,7 +1149,7 @@ DO_RULE = ("declarations are built option item by option item: every container o
 @plan("C06")
 def c06(run, selftest=True):
     run.build()
-    for fo in (["attr", "cont"] if run.tier == "quick" else ["attr", "cont", "enum", "field"]):
+    for fo in (["attr", "cont", "vfield"] if run.tier == "quick" else ["attr", "cont", "enum", "field", "vfield"]):
         deriveopts_stage(run, fo, is_totality, selftest and fo == "attr")
     deriveopts_trace_stage(run, False, 3000 if run.tier == "quick" else 40000, totality_only=True)
     run.assumptions = DO_ASSUME
@@ -1155,7 +1159,7 @@ def c06(run, selftest=True):
 @plan("C10")
 def c10(run, selftest=True):
     run.build()
-    for fo in (["cont", "enum", "field"] if run.tier == "quick" else ["attr", "cont", "enum", "field"]):
+    for fo in (["cont", "enum", "field", "vfield"] if run.tier == "quick" else ["attr", "cont", "enum", "field", "vfield"]):
         deriveopts_stage(run, fo, lambda m: not is_totality(m), selftest and fo == "cont")
     deriveopts_trace_stage(run, selftest, 2000 if run.tier == "quick" else 20000)
     run.assumptions = DO_ASSUME
@@ -1212,7 +1216,7 @@ def c20(run, selftest=True):
     q = run.tier == "quick"
     run.build()           # also compiles the whole generated receiver corpus (C01/C09/C16 option space) against the working tree
     outs = []
-    for fo in ("field", "cont", "enum"):
+    for fo in ("field", "cont", "enum", "vfield"):
         res = run.tlc("MC_DeriveOptions", DO_CFG % DO_FOCUS[fo], "c20_" + fo, workers=8, timeout=3000)
         run.require_tlc_ok(res, "DeriveOptions (%s)" % fo)
         outs.append(res["out"])
